@@ -30,14 +30,14 @@ func sshfxFileModeString(w uint32) string { return sshfx.FileMode(w).String() }
 // independent POSIX table
 const (
 	pxIFMT, pxIFSOCK, pxIFLNK, pxIFREG, pxIFBLK, pxIFDIR, pxIFCHR, pxIFIFO = 0o170000, 0o140000, 0o120000, 0o100000, 0o060000, 0o040000, 0o020000, 0o010000
-	pxISUID, pxISGID, pxISVTX                                                = 0o4000, 0o2000, 0o1000
+	pxISUID, pxISGID, pxISVTX                                              = 0o4000, 0o2000, 0o1000
 )
 
 var pxTypes = []struct {
-	px uint32
+	px  uint32
 	go_ os.FileMode
-	ch byte
-	nm string
+	ch  byte
+	nm  string
 }{
 	{pxIFREG, 0, '-', "regular"},
 	{pxIFDIR, os.ModeDir, 'd', "dir"},
@@ -97,7 +97,7 @@ func pxString(w uint32) string {
 func TestVerifC17(t *testing.T) {
 	vfMain(t, vfCheck{
 		ID: "C17", Level: "exploration", Exhaustive: false,
-		Rule: "unit0: all 2^16 wire mode words and all 7x512x8 os.FileMode values through toFileMode/fromFileMode/toChmodPerm/FileMode.String against an independent POSIX table (exhaustive); unit1: one object per file kind the host can create, Stat/Lstat/ReadDir via Client on both servers vs os.Lstat+Stat_t; unit2: all 4096 perm+special values through Client.Chmod and File.Chmod vs os.Chmod on a twin (exhaustive); unit3: all 16 attribute-flag subsets x {SETSTAT,FSETSTAT} vs the same os calls on a twin (exhaustive); units 4+: seeded directory entries, long name parsed and compared with the structured attributes. A class is one (sub-check, value) pair; all are non-trivial.",
+		Rule:        "unit0: all 2^16 wire mode words and all 7x512x8 os.FileMode values through toFileMode/fromFileMode/toChmodPerm/FileMode.String against an independent POSIX table (exhaustive); unit1: one object per file kind the host can create, Stat/Lstat/ReadDir via Client on both servers vs os.Lstat+Stat_t; unit2: all 4096 perm+special values through Client.Chmod and File.Chmod vs os.Chmod on a twin (exhaustive); unit3: all 16 attribute-flag subsets x {SETSTAT,FSETSTAT} vs the same os calls on a twin (exhaustive); units 4+: seeded directory entries, long name parsed and compared with the structured attributes. A class is one (sub-check, value) pair; all are non-trivial.",
 		Assumptions: []string{"runs as root on Linux (mknod, chown available)", "owner names in the long name are compared through the same os/user lookup the server uses"},
 		Units: func(tier vfTier, seed uint64) int {
 			if tier == vfThorough {
@@ -251,6 +251,10 @@ func c17MakeKinds(u *vfUnit, dir string) []c17Obj {
 			syscall.Chmod(p("reg"), 0o4750) // chown may clear setuid
 		}
 		mt := time.Unix(1500000000+int64(i)*86400*3, 0)
+		if i%2 == 1 {
+			// wire times are unsigned 32-bit seconds: values from 2038 on must survive as well
+			mt = time.Unix(0x80000000+int64(i)*86400*400, 0)
+		}
 		os.Chtimes(p(o.name), mt.Add(time.Hour), mt)
 	}
 	return out
@@ -479,65 +483,72 @@ func c17Setstat(u *vfUnit) {
 		return
 	}
 	id := uint32(10)
-	newAttrs := vfAttrs{Size: 37, UID: 4321, GID: 8765, Perm: 0o100000 | 0o2751, Atime: 1400000000, Mtime: 1300000000}
 	base := time.Unix(1200000000, 0)
-	for _, typ := range []byte{rfSetstat, rfFsetstat} {
-		for sub := uint32(0); sub < 16; sub++ {
-			u.Eval(fmt.Sprintf("setstat:%d:%d", typ, sub))
-			u.Count("setstat_subsets", 1)
-			for _, p := range []string{a, b} {
-				os.Remove(p)
-				os.WriteFile(p, vfPattern(3, 0, 100), 0o644)
-				os.Chown(p, 111, 222)
-				os.Chmod(p, 0o644)
-				os.Chtimes(p, base, base)
-			}
-			at := newAttrs
-			at.Flags = sub
-			var resp []vfPkt
-			var err error
-			if typ == rfSetstat {
-				id++
-				resp, err = rs.R.Phase(60*time.Second, vfPkt{Type: rfSetstat, ID: id, Path: a, Attrs: at})
-			} else {
-				id += 3
-				var r1 []vfPkt
-				r1, err = rs.R.Phase(60*time.Second, vfPkt{Type: rfOpen, ID: id, Path: a, Pflags: rfRead_ | rfWrite_})
-				if err == nil && (len(r1) != 1 || r1[0].Type != rfHandle) {
-					err = fmt.Errorf("open: %v", r1)
+	for vi, newAttrs := range []vfAttrs{
+		{Size: 37, UID: 4321, GID: 8765, Perm: 0o100000 | 0o2751, Atime: 1400000000, Mtime: 1300000000},
+		{Size: 0, UID: 0, GID: 0, Perm: 0o100000 | 0o4000, Atime: 0x80000001, Mtime: 0xF0000000}, // times beyond 2038 (unsigned on the wire)
+	} {
+		for _, typ := range []byte{rfSetstat, rfFsetstat} {
+			for sub := uint32(0); sub < 16; sub++ {
+				if vi == 1 && sub&(rfAttrTime|rfAttrPerm|rfAttrSize) == 0 {
+					continue
 				}
-				if err == nil {
-					resp, err = rs.R.Phase(60*time.Second, vfPkt{Type: rfFsetstat, ID: id + 1, Handle: r1[0].Handle, Attrs: at})
-					rs.R.Phase(60*time.Second, vfPkt{Type: rfClose, ID: id + 2, Handle: r1[0].Handle})
+				u.Eval(fmt.Sprintf("setstat:%d:%d", typ, sub))
+				u.Count("setstat_subsets", 1)
+				for _, p := range []string{a, b} {
+					os.Remove(p)
+					os.WriteFile(p, vfPattern(3, 0, 100), 0o644)
+					os.Chown(p, 111, 222)
+					os.Chmod(p, 0o644)
+					os.Chtimes(p, base, base)
 				}
-			}
-			if err != nil {
-				u.Violation("setstat:transport", err.Error(), nil)
-				return
-			}
-			// twin: same os calls in the order Truncate, Chmod, Chown, Chtimes
-			var terr error
-			if sub&rfAttrSize != 0 && terr == nil {
-				terr = os.Truncate(b, int64(at.Size))
-			}
-			if sub&rfAttrPerm != 0 && terr == nil {
-				want, _ := pxWant(at.Perm)
-				terr = os.Chmod(b, want)
-			}
-			if sub&rfAttrUIDGID != 0 && terr == nil {
-				terr = os.Chown(b, int(at.UID), int(at.GID))
-			}
-			if sub&rfAttrTime != 0 && terr == nil {
-				terr = os.Chtimes(b, time.Unix(int64(at.Atime), 0), time.Unix(int64(at.Mtime), 0))
-			}
-			sa, sb := c17Get(a), c17Get(b)
-			if sub&rfAttrTime == 0 {
-				// un-set times move as an OS side effect of truncate etc.; not compared
-				sa.atime, sb.atime, sa.mtime, sb.mtime = 0, 0, 0, 0
-			}
-			ok := len(resp) == 1 && resp[0].Type == rfStatus && (resp[0].Code == rfOK) == (terr == nil)
-			if !ok || sa != sb {
-				u.Violation(fmt.Sprintf("setstat:type=%d:flags=%#x", typ, sub), fmt.Sprintf("%s flags=%#x: reply %v, file now %+v; the same os calls on a twin give %+v (err %v)", rfTypeName(typ), sub, resp, sa, sb, terr), map[string]any{"type": typ, "flags": sub})
+				at := newAttrs
+				at.Flags = sub
+				var resp []vfPkt
+				var err error
+				if typ == rfSetstat {
+					id++
+					resp, err = rs.R.Phase(60*time.Second, vfPkt{Type: rfSetstat, ID: id, Path: a, Attrs: at})
+				} else {
+					id += 3
+					var r1 []vfPkt
+					r1, err = rs.R.Phase(60*time.Second, vfPkt{Type: rfOpen, ID: id, Path: a, Pflags: rfRead_ | rfWrite_})
+					if err == nil && (len(r1) != 1 || r1[0].Type != rfHandle) {
+						err = fmt.Errorf("open: %v", r1)
+					}
+					if err == nil {
+						resp, err = rs.R.Phase(60*time.Second, vfPkt{Type: rfFsetstat, ID: id + 1, Handle: r1[0].Handle, Attrs: at})
+						rs.R.Phase(60*time.Second, vfPkt{Type: rfClose, ID: id + 2, Handle: r1[0].Handle})
+					}
+				}
+				if err != nil {
+					u.Violation("setstat:transport", err.Error(), nil)
+					return
+				}
+				// twin: same os calls in the order Truncate, Chmod, Chown, Chtimes
+				var terr error
+				if sub&rfAttrSize != 0 && terr == nil {
+					terr = os.Truncate(b, int64(at.Size))
+				}
+				if sub&rfAttrPerm != 0 && terr == nil {
+					want, _ := pxWant(at.Perm)
+					terr = os.Chmod(b, want)
+				}
+				if sub&rfAttrUIDGID != 0 && terr == nil {
+					terr = os.Chown(b, int(at.UID), int(at.GID))
+				}
+				if sub&rfAttrTime != 0 && terr == nil {
+					terr = os.Chtimes(b, time.Unix(int64(at.Atime), 0), time.Unix(int64(at.Mtime), 0))
+				}
+				sa, sb := c17Get(a), c17Get(b)
+				if sub&rfAttrTime == 0 {
+					// un-set times move as an OS side effect of truncate etc.; not compared
+					sa.atime, sb.atime, sa.mtime, sb.mtime = 0, 0, 0, 0
+				}
+				ok := len(resp) == 1 && resp[0].Type == rfStatus && (resp[0].Code == rfOK) == (terr == nil)
+				if !ok || sa != sb {
+					u.Violation(fmt.Sprintf("setstat:type=%d:flags=%#x:values=%d", typ, sub, vi), fmt.Sprintf("%s flags=%#x values %+v: reply %v, file now %+v; the same os calls on a twin give %+v (err %v)", rfTypeName(typ), sub, at, resp, sa, sb, terr), map[string]any{"type": typ, "flags": sub})
+				}
 			}
 		}
 	}
@@ -613,7 +624,9 @@ func c17LongNames(u *vfUnit) {
 			syscall.Chmod(p, perm)
 			// mtimes: at least a day away from the six-month edge
 			var mt time.Time
-			if u.Rng.Bool() {
+			if i%9 == 4 {
+				mt = time.Unix(0x80000000+int64(u.Rng.Intn(1<<30)), 0) // beyond 2038
+			} else if u.Rng.Bool() {
 				mt = now.AddDate(0, -6, -2-u.Rng.Intn(3000))
 			} else {
 				mt = now.AddDate(0, 0, -u.Rng.Intn(170))
